@@ -167,6 +167,8 @@ pub fn meta_for(l: &Logical, bytes_len: usize, spilled: bool) -> Meta {
         .label(l.has_near_dup(), "near-dup-content")
         .label(l.has_adversarial(), "hash-adversarial-content")
         .label(spilled, "leaf-spill")
+        .label(!l.readds.is_empty(), "re-added-identical")
+        .label(!l.wrong_first.is_empty(), "overwritten-content")
         .label(l.meta.has_full_float(), "meta-full-float")
         .label(l.meta.has_short_float(), "meta-short-float")
         .label(!l.meta.is_empty_object(), "meta-nonempty")
@@ -249,7 +251,7 @@ pub fn run(ctx: &Ctx) {
     let big = large_cases(ctx);
     run_list(ctx, "roundtrip-large", &big, check);
     probes(ctx);
-    for c in ["leaf-spill", "dup-content", "near-dup-content", "meta-nonempty", "internal-brotli", "internal-none", "writer-async", "reader-async", "tiles-0", "tiles-1"] {
+    for c in ["leaf-spill", "dup-content", "near-dup-content", "meta-nonempty", "internal-brotli", "internal-none", "writer-async", "reader-async", "tiles-0", "tiles-1", "re-added-identical", "overwritten-content"] {
         ctx.rec.floor(c, 5);
     }
 }
